@@ -150,6 +150,19 @@ theorem Buf.init_good (st : Bool) (n : Nat) : (Buf.mk st n [] []).Good := by
   · intro w hw; simp at hw
   · intro h; exact absurd rfl h
 
+theorem initBuf_good (st : Option Nat) (h : ∀ n, st = some n → n > 1) : (initBuf st).Good := by
+  cases st with
+  | none => exact Buf.init_good _ _
+  | some n =>
+    have hn := h n rfl
+    constructor
+    · intro w hw
+      simp only [initBuf] at hw
+      split at hw
+      · simp at hw; subst hw; simp; omega
+      · simp at hw
+    · intro _; simp [initBuf]; omega
+
 theorem lydPath_good {f : Forest} {a : Addr} {pt : PathType} {st : Option Nat} {b : Buf}
     (h : lydPath f a pt st = some b) : b.Good := by
   unfold lydPath at h
@@ -158,9 +171,9 @@ theorem lydPath_good {f : Forest} {a : Addr} {pt : PathType} {st : Option Nat} {
   · cases h
   · split at h
     · split at h
-      · cases h; exact printLevels_good _ _ _ (Buf.init_good _ _)
+      · next n hn => cases h; exact printLevels_good _ _ _ (initBuf_good _ (by intro m hm; cases hm; exact hn))
       · cases h
-    · cases h; exact printLevels_good _ _ _ (Buf.init_good _ _)
+    · cases h; exact printLevels_good _ _ _ (initBuf_good _ (by intro m hm; cases hm))
 
 /-! ### once written, always written -/
 
@@ -303,8 +316,8 @@ theorem pathOf_eq_text {f : Forest} {a : Addr} {ls : List Level} (h : levels f a
   | nil => exact absurd rfl hne
   | cons l rest =>
     simp only [Option.map]
-    have := printLevels_dynamic true (l :: rest) ⟨false, 0, [], []⟩ rfl
-    simp at this
-    simp [this.2]
+    have := printLevels_dynamic true (l :: rest) (initBuf none) rfl
+    simp [initBuf] at this
+    simp [initBuf, this.2]
 
 end LyModel.Path
